@@ -208,6 +208,42 @@ func (vc *VC) call(ins ssa.Instruction, c *ssa.CallCommon, v *ssa.Call) {
 		vc.oblige(fmt.Sprintf("call[%s]/requires#%d", sk, i+1), "requires", t, r.Text, pos)
 		vc.assume(t)
 	}
+	// intermediate assertions of the caller at this call site (atcall clauses of the function being verified)
+	if vc.spec != nil && !vc.inl && vc.spec.AtCall != nil {
+		if as := vc.spec.AtCall[sk]; len(as) > 0 && v != nil && v.Block() != nil {
+			cenv := vc.entryEnv()
+			cenv.heap = vc.heap
+			blk := v.Block()
+			base := cenv.resolve
+			h := vc.heap
+			cenv.resolve = func(name string) (Term, bool) {
+				if t, ok := env.vars[name]; ok { // callee parameter names denote the arguments
+					return t, true
+				}
+				if t, ok := vc.resolveLocal(name, blk, h, nil); ok {
+					return t, true
+				}
+				if base != nil {
+					return base(name)
+				}
+				return Term{}, false
+			}
+			// inside the body a parameter name denotes the current value of the variable
+			for _, p := range vc.fn.Params {
+				if t, ok := vc.resolveLocal(p.Name(), blk, h, nil); ok {
+					cenv.vars[p.Name()] = t
+				}
+			}
+			for i, a := range as {
+				t, err := cenv.evalBool(a.Expr)
+				if err != nil {
+					vc.fail("%s atcall %s #%d: %v", shortKey(vc.key), sk, i+1, err)
+				}
+				vc.oblige(fmt.Sprintf("call[%s]/assert#%d", sk, i+1), "assert", t, a.Text, pos)
+				vc.assume(t)
+			}
+		}
+	}
 	// modifies
 	for _, m := range spec.Modifies {
 		if m.Text == "*" {
